@@ -15,6 +15,9 @@ check('C18', 'proof',
       'Trusted: Coq kernel+VM, translator/export_c18_save.py, harness fault injection (in-process wrappers of os.rename/replace/unlink, '
       'Path.exists/open, hdf5_io.save; a crash is an exception; a torn write leaves a byte prefix). Assumption A-fs: rename/unlink atomic and '
       'ordered, no fsync reordering. Not modelled: handle_abort_signal timing, DMRG mixer state and convergence history across a resume '
-      '(oracle-checked only, see known finding F18.1), sequential simulations, the _1.._99 renaming of fresh runs (oracle only). '
+      '(oracle-checked only, see known finding F18.1), sequential simulations.  The _1.._99 renaming of fresh runs: T18_fix_output_filenames (Model/FixNames.v, a transcription of the name choice of '
+      'fix_output_filenames without own correspondence stream; for every set of existing candidates a fresh run gets the smallest non-existing '
+      'name <= _99, Skip exactly when skip_if_output_exists and the file exists, ValueError exactly when all 100 names exist; the marker written to '
+      'the backup name and the log-file renaming are not covered by it; the renaming is also oracle-checked). '
       'Known findings F11, F12, F18.1 are reported, not repaired.',
       'Coq proof over all numbers of saves / crash points / histories + regenerated source + fault enumeration with differential correspondence', '5.C18')
